@@ -336,6 +336,22 @@ func (fr *Frame) reachCheck(st *State, ins ssa.Instruction, gc *FuncContract) {
 		}
 	}
 	_ = callKeyQ
+	// a deferred call is gated where it runs (function exit), with the argument
+	// values captured at the defer statement - not where it is registered
+	var deferVals []*Val
+	coverOnly := false // at the defer statement: only the reachability cover of the gate
+	if _, isDefer := ins.(*ssa.Defer); isDefer {
+		if fr.runningDefer == nil {
+			coverOnly = true
+		} else {
+			txt = ""
+			d := fr.runningDefer
+			if d.call.Call.IsInvoke() {
+				deferVals = append(deferVals, d.fnv)
+			}
+			deferVals = append(deferVals, d.args...)
+		}
+	}
 	if txt == "" && callKey == "" {
 		return
 	}
@@ -365,9 +381,25 @@ func (fr *Frame) reachCheck(st *State, ins ssa.Instruction, gc *FuncContract) {
 				continue
 			}
 		}
+		if coverOnly && !isCallGate {
+			// statement-text gates on a defer statement keep their meaning
+		} else if coverOnly {
+			ck := fmt.Sprintf("cover@%s@%s#%d", rc.Stmt, fr.fn.Name(), int(pos))
+			if fr.reachDone == nil {
+				fr.reachDone = map[string]bool{}
+			}
+			if !fr.reachDone[ck] && x.inDefer == 0 {
+				fr.reachDone[ck] = true
+				x.cover(st, "gate "+rc.Stmt, pos)
+			}
+			continue
+		}
 		key := fmt.Sprintf("%s@%s#%d", rc.Stmt, fr.fn.Name(), ins.Block().Index)
 		if isCallGate {
 			key = fmt.Sprintf("%s@%s#%d", rc.Stmt, fr.fn.Name(), int(pos))
+			if fr.runningDefer != nil {
+				key += fmt.Sprintf("/exit%d", fr.deferSite)
+			}
 		}
 		if fr.reachDone == nil {
 			fr.reachDone = map[string]bool{}
@@ -376,7 +408,7 @@ func (fr *Frame) reachCheck(st *State, ins ssa.Instruction, gc *FuncContract) {
 			continue
 		}
 		fr.reachDone[key+rc.Clause.Text] = true
-		if !fr.reachDone["cover@"+key] {
+		if !fr.reachDone["cover@"+key] && x.inDefer == 0 {
 			// a gate proved on an unreachable path proves nothing
 			fr.reachDone["cover@"+key] = true
 			x.cover(st, "gate "+rc.Stmt, pos)
@@ -386,6 +418,12 @@ func (fr *Frame) reachCheck(st *State, ins ssa.Instruction, gc *FuncContract) {
 		env.lookup = func(s *State, name string) (*Val, bool) { return fr.lookupLocal(s, name, pos) }
 		if isCallGate {
 			for i, a := range callArgs {
+				if deferVals != nil {
+					if i < len(deferVals) {
+						env.vars[fmt.Sprintf("_c%d", i)] = deferVals[i]
+					}
+					continue
+				}
 				env.vars[fmt.Sprintf("_c%d", i)] = fr.val(st, a)
 			}
 		}
@@ -508,6 +546,7 @@ func (fr *Frame) execStore(st *State, in *ssa.Store) {
 	fr.nilCheck(st, addr, in.Pos(), in)
 	p := x.ptrOf(addr)
 	fr.frameCheck(st, p, in.Pos())
+	fr.guardCheck(st, p, in.Pos(), "write")
 	if !types.Identical(under(v.Ty), under(p.Ty)) && nLeaves(v.Ty) != nLeaves(p.Ty) {
 		panic(fmt.Sprintf("store type mismatch %v into %v", v.Ty, p.Ty))
 	}
@@ -553,6 +592,33 @@ func (fr *Frame) frameCheck(st *State, p *PtrPath, pos token.Pos) {
 			}
 			x.oblige(st, "frame", "write "+n, pos, goal, nil, false)
 			return
+		}
+	}
+}
+
+// guardCheck: `guarded HEAP by e` - the function under verification (and the
+// code it runs in place) touches HEAP only while e holds.
+func (fr *Frame) guardCheck(st *State, p *PtrPath, pos token.Pos, what string) {
+	x := fr.x
+	top := x.top
+	if p.Base == pbCell || top == nil || top.contract == nil || len(top.contract.Guarded) == 0 || x.noObl > 0 {
+		return
+	}
+	lo, hi, _, _ := resolvePath(p)
+	for j := lo; j < hi; j++ {
+		n, _ := x.leafHeapName(p, j)
+		for _, gcl := range top.contract.Guarded {
+			if !heapMatches(n, gcl.Pat) {
+				continue
+			}
+			env := top.specEnv(st)
+			g, err := env.evalBool(gcl.Clause.Expr)
+			if err != nil {
+				x.vc.diag("%s: guarded %s: %v", fr.fn.String(), gcl.Pat, err)
+				g = "false"
+			}
+			x.oblige(st, "guard", what+" "+n+" only while "+gcl.Clause.Text, pos, g, gcl.Clause.Tags, false)
+			gcl.Clause.Label = "bound"
 		}
 	}
 }
@@ -609,6 +675,7 @@ func (fr *Frame) execUnOp(st *State, in *ssa.UnOp) {
 				x.globalInit(st, p.Cell)
 			}
 		}
+		fr.guardCheck(st, p, in.Pos(), "read")
 		fr.set(in, x.loadPath(st, p))
 	case token.NOT:
 		fr.set(in, mkBool(tNot(v.T())))
